@@ -362,6 +362,53 @@ func anyBackTerm(m protoreflect.Message) string {
 	return "[" + strings.Join(parts, "; ") + "]"
 }
 
+// outsideRepRoot names why a message the oracle judges (notRepresentable == "") is nevertheless
+// outside the precondition rep_root of the theorems ("" when inside). The Coq side evaluates the
+// decider rep_root_b on the same message and the two must agree case by case, so the number of
+// generated messages the theorem speaks about is a measured, machine-checked count.
+func outsideRepRoot(m protoreflect.Message) string {
+	why := ""
+	var walk func(m protoreflect.Message)
+	walk = func(m protoreflect.Message) {
+		name := m.Descriptor().FullName()
+		if name == "j5.types.any.v1.Any" {
+			fs := m.Descriptor().Fields()
+			if m.Has(fs.ByName("j5_json")) {
+				j := m.Get(fs.ByName("j5_json")).Bytes()
+				if !bytes.Equal(canonPrint(j), j) {
+					why = "j5_any_stored_text_not_the_canonical_compact_print"
+				}
+			}
+			return
+		}
+		if name == "google.protobuf.Any" {
+			return
+		}
+		m.Range(func(fd protoreflect.FieldDescriptor, v protoreflect.Value) bool {
+			if fd.IsMap() {
+				if fd.MapValue().Kind() != protoreflect.MessageKind {
+					return true
+				}
+			} else if fd.Kind() != protoreflect.MessageKind {
+				return true
+			}
+			switch {
+			case fd.IsList():
+				for i := 0; i < v.List().Len(); i++ {
+					walk(v.List().Get(i).Message())
+				}
+			case fd.IsMap():
+				v.Map().Range(func(_ protoreflect.MapKey, mv protoreflect.Value) bool { walk(mv.Message()); return true })
+			default:
+				walk(v.Message())
+			}
+			return true
+		})
+	}
+	walk(m)
+	return why
+}
+
 func hasPBAny(m protoreflect.Message) bool {
 	w := false
 	var walk func(m protoreflect.Message)
@@ -457,10 +504,19 @@ func (er *encRun) roundTrip(stream string, t *target, m protoreflect.Message, fl
 			if !inTheoremShape(t.Env) {
 				res.Count("env_outside_theorem_hypotheses_exposed_oneof_in_flattened_object")
 			}
-			er.em.cf.Terms = append(er.em.cf.Terms, fmt.Sprintf("CRound %s %s %s %s %s %s %s %s %s %s %s %s %s", t.Name, vh.BoolTerm(inTheoremShape(t.Env)), codecgen.BytesTerm(t.Env.Root), msgTerm(m),
+			rep := inTheoremShape(t.Env)
+			res.Count("theorem_precondition_cases")
+			if why := outsideRepRoot(m); why != "" {
+				rep = false
+				res.Count("outside_rep_root_" + why)
+			}
+			if rep {
+				res.Count("theorem_precondition_rep_root_holds")
+			}
+			er.em.cf.Terms = append(er.em.cf.Terms, fmt.Sprintf("CRound %s %s %s %s %s %s %s %s %s %s %s %s %s %s", t.Name, vh.BoolTerm(inTheoremShape(t.Env)), codecgen.BytesTerm(t.Env.Root), msgTerm(m),
 				facts.floatsTerm(), facts.innersTerm(), pf, pt, vh.BoolTerm(facts.maxMap <= 1), codecgen.BytesTerm(string(o.Out)), backTerm,
 				vh.BoolTerm(facts.kinds["any"] == 0), // messages are compared with dec's model unless an Any is inside (its j5_json is stored in another canonical spelling)
-				abackTerm))
+				abackTerm, vh.BoolTerm(rep)))
 			res.Cases = append(res.Cases, vh.CaseRec{Case: caseNo, Stream: stream, Input: in, Impl: map[string]any{"out": short(o.Out), "decode_err": fmt.Sprint(derr)}})
 		}
 	}
